@@ -194,6 +194,7 @@ namespace
             {
                 const T* p = xtl::get_if<I>(&v);
                 if (p != &xtl::get<I>(v) || p != &xtl::get<T>(v)) viol("invariant", "get", who + "get/get_if designate different objects");
+                if (!sim::placed(*p)) viol("lifetime", "relocated", who + "the contained object was not constructed where it now lives (bytes moved without a constructor)");
             }
         }
         void check_slot(int i)
